@@ -616,7 +616,7 @@ func vStartStallMonitor() {
 			for {
 				time.Sleep(2 * time.Millisecond)
 				now := time.Now()
-				if d := now.Sub(last) - 2*time.Millisecond; d > 25*time.Millisecond {
+				if d := now.Sub(last) - 2*time.Millisecond; d > 100*time.Millisecond { // a freeze, not ordinary scheduling latency
 					vStallMu.Lock()
 					vStalls = append(vStalls, vStall{last, d})
 					vStallMu.Unlock()
